@@ -38,7 +38,7 @@ PROPS = {
                          {"module": "MC_YearAnchor", "cfg": "MC_YearAnchor.cfg", "workers": 4}],
                "thorough": [{"module": "MC_MonthClock", "cfg": "MC_MonthClock.cfg", "workers": 4},
                             {"module": "MC_MonthStep", "cfg": "MC_MonthStep_big.cfg", "workers": 6, "heap": "8g"},
-                            {"module": "MC_YearAnchor", "cfg": "MC_YearAnchor.cfg", "workers": 4}]},
+                            {"module": "MC_YearAnchor", "cfg": "MC_YearAnchor_big.cfg", "workers": 4, "heap": "8g"}]},
         "rule": "month walks by LunarMonth::next(1) over years 0-30, 230-245, 1640-1650, 1955-1965, 7990-8010, 9988-9999 + 40 seeded decades (quick) or all years 0..9999 (thorough); "
                 "each lunation also through from_ym, the uncached constructor, next(0), next(-1), next(n) for 12 step counts; one record per lunar year. "
                 "Non-trivial: leap months and their twins, first/last months of a year, leap years",
